@@ -120,7 +120,7 @@ def run_e1(pid, spec, tier, ws, out, log_dir, known):
                 out.not_replayed.append("%s (%s)" % (h.name, "; ".join(f["description"][:50] for f in r.failed[:2])))
                 continue
             rps, why = R.replay_failing_harness(ws, crate, h.path, features, log_dir=log_dir,
-                                                gen_timeout=max(900, 2 * h.timeout[0 if tier == "quick" else 1]))
+                                                gen_timeout=max(2700, 3 * h.timeout[0 if tier == "quick" else 1]))
             reproduced = [rp for rp in rps if rp["reproduced"]]
             if not reproduced:
                 out.inconclusive.append(
